@@ -64,6 +64,9 @@ func genC08(r *kernel.Rand) *kernel.Scenario {
 		}
 	}
 	if r.Bool(0.25) {
+		sc.Steps = append(sc.Steps, kernel.St("open-pair", "from", r.Intn(2), "r", int64(r.Uint64()>>2), "app", app, "assets", 1+r.Intn(2), "challenge", cd, "aux", aux, "gap_us", []int{0, 20, 200, 1500}[r.Intn(4)]))
+	}
+	if r.Bool(0.25) {
 		// an opening during which one message cannot be sent
 		sc.Steps = append(sc.Steps, kernel.St("open-fault", "from", r.Intn(2), "r", int64(r.Uint64()>>2), "app", app, "assets", 1, "challenge", cd, "aux", aux, "nth", r.Range(1, 7)))
 	}
@@ -178,6 +181,42 @@ func execC08(t *testing.T, sc *kernel.Scenario, trace bool) *kernel.Result {
 					} else {
 						s.Count("probe.identical_shares_collide", 1)
 					}
+				}
+			case "open-pair":
+				// two honest openings by the same proposer towards the same peer are
+				// under way at once (other nonce shares, hence other channels): both
+				// proposals are accepted, so both must yield their channel on both sides
+				side := int(st.Int("from")) & 1
+				if side == 0 {
+					honestToH += 2
+				}
+				p.nextAccKey, p.nextPropNonce = "", ""
+				p.mu.Lock()
+				wasEager := p.eager
+				p.eager = true
+				p.mu.Unlock()
+				res := make(chan int, 2)
+				st2 := *st
+				st2.A = map[string]int64{}
+				for k, v := range st.A {
+					st2.A[k] = v
+				}
+				st2.A["r"] = st.Int("r") + 1
+				go func() { res <- p.open(i, side, st) }()
+				time.Sleep(s.Delay(fmt.Sprintf("driver:open-pair-gap:%d", i), 0, time.Duration(st.Int("gap_us"))*time.Microsecond))
+				go func() { res <- p.open(i+1000, side, &st2) }()
+				k1, k2 := <-res, <-res
+				p.mu.Lock()
+				p.eager = wasEager
+				p.mu.Unlock()
+				s.Count("fault.two_openings_at_once", 1)
+				for _, k := range []int{k1, k2} {
+					if k < 0 || p.chans[k][0] == nil || p.chans[k][1] == nil {
+						s.Fail("C08.honest-opening-failed@two-at-once", "of two honest ledger channel openings by the same proposer that were under way at once, one did not yield its channel on both sides (last error: %v)", p.lastOpenErr)
+						break
+					}
+					opens = append(opens, openRec{id: p.ids[k], pn: -int64(i) - int64(k), an: -int64(i) - int64(k), sideProposer: side, alloc: p.lastAlloc})
+					checkOpenedPair(p, p.chans[k][0], p.chans[k][1], "ledger")
 				}
 			case "open-fault":
 				// an honest opening during which one message cannot be sent (a
